@@ -140,6 +140,11 @@ def synth_meta(rng, kind, nch, nsync=1, sites=None, gains=None, layout=None, era
             sites.add((rng.randrange(nshank), rng.randrange(ncol), rng.randrange(min(nrow, 2 + nch))))
         sites = list(sites)
         rng.shuffle(sites)
+        if base == "NP2.4" and nch % 2 == 0:
+            # far end of the row range on the even shanks (rows up to nrow-1 next to row 0 of the following
+            # shank): a packed sort key with too small a per-shank stride orders these wrongly (C01-r10seed1).
+            # No extra draw, so the random stream of every other case is unchanged.
+            sites = [(s, c, nrow - 1 - r) if s % 2 == 0 else (s, c, r) for (s, c, r) in sites]
         if rng.random() < 0.25:      # the usual layout: already sorted on disk
             sites.sort(key=lambda s: (s[0], s[2], s[1]))
     if base == "NP2.4" and sites_given is None and rng.random() < 0.4:
